@@ -62,7 +62,7 @@ def gen_case(rng):
     if route == 'auto':
         params = {'kp': None, 'desc': None, 'gf': None, 'descMetric': 'L2', 'gfMetric': 'L2'}
     return {'d': d, 'params': params, 'route': route, 'clash': clash, 'points_version': rng.random() < 0.5,
-            'spell': rng.randrange(4), 'json': rng.random() < 0.4}
+            'spell': rng.randrange(4), 'json': rng.random() < 0.4, 'hdr': rng.choice([0, 0, 1, 2, 3, 4, 5, 5, 6, 7])}
 
 
 def cases(rng, tier):
@@ -96,7 +96,12 @@ def tree_10(case, base):
             elif rel == 'reconstruction/points3d.txt' and not case['points_version']:
                 lines = lines[1:]
             else:
-                lines[0] = '# kapture format: 1.0'
+                # the version line as the header pattern accepts it (optional blanks after the colon, trailing blanks), and
+                # with or without the '# columns' comment line between it and the first row
+                lines[0] = ['# kapture format: 1.0', '# kapture format:1.0', '# kapture format:   1.0', '# kapture format: 1.0  '][
+                    case.get('hdr', 0) % 4]
+                if case.get('hdr', 0) >= 4 and len(lines) > 1 and lines[1].startswith('#'):
+                    del lines[1]
             os.makedirs(os.path.dirname(os.path.join(root, rel)), exist_ok=True)
             with open(os.path.join(root, rel), 'w') as f:
                 f.write('\n'.join(lines))
